@@ -7,6 +7,49 @@ NOFAULT = {"k": 0, "mode": "none"}
 def pkey(ast):
     return hashlib.sha1(json.dumps(ast, sort_keys=True, default=str).encode()).hexdigest()
 
+class Meta:
+    """id -> what a replay needs ({"prog", "case", "tag"} for a call, {"clause", "calls", "tag", "x"} for a session). Calls of flushed
+    shards are read back from the shard file on demand (one shard cached), so a thorough run does not hold every recording in memory."""
+    def __init__(self):
+        self.live = {}
+        self.where = {}         # call id -> (shard path, index, tag)
+        self._cache = (None, None)
+    def __setitem__(self, k, v):
+        self.live[k] = v
+    def flushed(self, path, cases):
+        for i, c in enumerate(cases):
+            e = self.live.pop(c["id"], None)
+            if e is not None:
+                self.where[c["id"]] = (path, i, e.get("tag"))
+    def _load(self, path):
+        if self._cache[0] != path:
+            with open(path) as f:
+                self._cache = (path, json.load(f))
+        return self._cache[1]
+    def __getitem__(self, k):
+        if k in self.live:
+            return self.live[k]
+        path, i, tag = self.where[k]
+        doc = self._load(path)
+        c = doc["cases"][i]
+        return {"prog": doc["progs"][c["pi"] - 1], "case": c, "tag": tag}
+    def get(self, k, default=None):
+        return self[k] if k in self else default
+    def __contains__(self, k):
+        return k in self.live or k in self.where
+    def __len__(self):
+        return len(self.live) + len(self.where)
+    def keys(self):
+        return list(self.where) + list(self.live)
+    def __iter__(self):
+        return iter(self.keys())
+    def items(self):
+        for k in self.keys():
+            yield k, self[k]
+    def values(self):
+        for k in self.keys():
+            yield self[k]
+
 class Shards:
     """accumulates recorded calls and writes them as JSON shards with a shared program table"""
     def __init__(self, scratch, prefix="shard", shard_size=1200, strict=False):
@@ -16,7 +59,7 @@ class Shards:
         self.strict = strict
         self.paths = []
         self.n = 0
-        self.meta = {}          # id -> (prog ast, case) kept small: only what a replay needs
+        self.meta = Meta()      # id -> (prog ast, case): what a replay needs
         self._reset()
         os.makedirs(scratch, exist_ok=True)
 
@@ -73,6 +116,7 @@ class Shards:
         with open(path, "w") as f:
             json.dump({"progs": self.progs, "cases": self.cases, "sessions": self.sessions, "strict": self.strict, "done": []}, f, separators=(",", ":"))
         self.paths.append(path)
+        self.meta.flushed(path, self.cases)
         self._reset()
 
 def validate(paths, jvms=8, workers=2, scratch=None, timeout=3600, module="Trace"):
